@@ -331,6 +331,9 @@ class C08(Check):
                     out = ("timeout" if type(e).__name__ != "MissingResponse" else "missing", type(e).__name__)
                 except ConnectionError as e:
                     out = ("conn", type(e).__name__)
+                except asyncio.CancelledError:
+                    # nobody cancels this task: the cancellation leaked out of the code under test
+                    out = ("other", "CancelledError: leaked out of the operation")
                 except Exception as e:  # noqa: BLE001
                     if type(e).__name__ == "MissingResponse":
                         out = ("missing", "MissingResponse")
